@@ -19,7 +19,13 @@
 From IV Require Import Base.Word Model.ReceiveLog Model.NackGen Spec.NackSpec.
 
 (* ---------- core stream: case = (size, ops, outs); op (0,seq)=add, (1,skip)=missingSeqNumbers ---------- *)
-Definition core_case := (Z * list (Z * Z) * list (list Z))%type.
+(* implementation outputs are printed run-length compressed: (a, n) stands for
+   a, a+1, ..., a+n-1 (mod 2^16); (-1, 0) marks a panic *)
+Definition expand_runs (l : list (Z * Z)) : list Z :=
+  flat_map (fun an => if fst an <? 0 then [fst an]
+                      else map (fun k => (fst an + k) mod 65536) (zrange 0 (Z.to_nat (snd an)))) l.
+
+Definition core_case := (Z * list (Z * Z) * list (list (Z * Z)))%type.
 
 Fixpoint core_run (s : rlog) (ops : list (Z * Z)) : list (list Z) :=
   match ops with
@@ -32,7 +38,7 @@ Definition lleqb (a b : list (list Z)) : bool := list_eqb (list_eqb Z.eqb) a b.
 Definition core_model_ok (c : core_case) : bool :=
   let '(sz, ops, outs) := c in
   match new_log sz with
-  | Some l => lleqb (core_run l ops) outs
+  | Some l => lleqb (core_run l ops) (map expand_runs outs)
   | None => false
   end.
 
@@ -85,15 +91,16 @@ Fixpoint core_spec_code (sz : Z) (s : option sst) (ops : list (Z * Z)) (outs : l
   end.
 
 Definition core_case_code (c : core_case) : nat :=
-  let '(sz, ops, outs) := c in core_spec_code sz None ops outs.
+  let '(sz, ops, outs) := c in core_spec_code sz None ops (map expand_runs outs).
 
-Fixpoint codes {A} (f : A -> nat) (l : list A) (i : nat) : list (nat * nat) :=
+(* (index, code) pairs, printed as Z so that the driver's parser sees plain numerals *)
+Fixpoint codes {A} (f : A -> nat) (l : list A) (i : Z) : list (Z * Z) :=
   match l with
   | [] => []
-  | x :: tl => match f x with O => codes f tl (S i) | n => (i, n) :: codes f tl (S i) end
+  | x :: tl => match f x with O => codes f tl (i + 1) | n => (i, Z.of_nat n) :: codes f tl (i + 1) end
   end.
 
-Definition core_spec_failures (cases : list core_case) : list (nat * nat) := codes core_case_code cases 0.
+Definition core_spec_failures (cases : list core_case) : list (Z * Z) := codes core_case_code cases 0.
 
 (* what the specification says the outputs of a core history are *)
 Fixpoint core_spec_run (sz : Z) (s : option sst) (ops : list (Z * Z)) : list (list Z) :=
@@ -139,7 +146,10 @@ Qed.
      k=6 (regression witness of the counter wrap only) nackCountLogs[a][b] := c, i.e. the state
          after c ticks during which b stayed missing and reached its limit, injected through a hook
    outs: per tick, the NACK packets as (MediaSSRC, expanded sequence numbers), ascending by SSRC *)
-Definition api_case := ((Z * Z * Z) * list (Z * Z * Z * Z) * list (list (Z * list Z)))%type.
+Definition api_case := ((Z * Z * Z) * list (Z * Z * Z * Z) * list (list (Z * list (Z * Z))))%type.
+
+Definition expand_outs (outs : list (list (Z * list (Z * Z)))) : list (list (Z * list Z)) :=
+  map (map (fun kq => (fst kq, expand_runs (snd kq)))) outs.
 
 Definition api_step (c : cfg) (g : gen) (o : Z * Z * Z * Z) : gen * option tick_out :=
   let '(k, a, b, v) := o in
@@ -169,7 +179,7 @@ Definition outs_eqb (a b : list tick_out) : bool := list_eqb (list_eqb pair_eqb)
 
 Definition api_model_ok (c : api_case) : bool :=
   let '((sz, skip, mx), ops, outs) := c in
-  outs_eqb (api_run (mk_cfg sz skip mx) gen_init ops) outs.
+  outs_eqb (api_run (mk_cfg sz skip mx) gen_init ops) (expand_outs outs).
 
 Definition api_mismatches (cases : list api_case) : list nat :=
   find_idx (fun c => negb (api_model_ok c)) cases 0.
@@ -280,6 +290,6 @@ Fixpoint api_spec_code (sz skip mx : Z) (st : list (Z * ost)) (ops : list (Z * Z
   end.
 
 Definition api_case_code (c : api_case) : nat :=
-  let '((sz, skip, mx), ops, outs) := c in api_spec_code sz skip mx [] ops outs.
+  let '((sz, skip, mx), ops, outs) := c in api_spec_code sz skip mx [] ops (expand_outs outs).
 
-Definition api_spec_failures (cases : list api_case) : list (nat * nat) := codes api_case_code cases 0.
+Definition api_spec_failures (cases : list api_case) : list (Z * Z) := codes api_case_code cases 0.
